@@ -53,7 +53,7 @@ import vlib
 import gatectl
 from vlib import VERIF
 
-TMP = "/var/tmp"
+TMP = os.environ.get("C04_TMP", "/var/tmp")
 PHASE_TIMEOUT = 20.0      # s, one survivor phase (the survivor's own cleanup loop gives up after 3 s)
 VICTIM_TIMEOUT = 20.0
 CREATION_TIMEOUT_MS = "300"
@@ -642,10 +642,28 @@ def enumerate_as(ctx, tdir, scs, user, th, model_steps, classes, stats):
     t_enum = time.time()
     per_scn = stats["per_scn"].setdefault(uname, {})
     nfail = 0
+    # wall-clock budget: the cases are run in a deterministic pseudo-random order (state-changing crash points first), so
+    # a run that is cut off by the budget on a loaded machine is still a spread over all scenarios; what was skipped is
+    # reported in the coverage
+    import hashlib
+
+    def prio(j):
+        nme, k, ka, ck, cka = j
+        tr = info[nme]["ctrace"] if ck is None else info[nme]["cctrace"]
+        idx = k if ck is None else ck
+        mut = 0 if (MUTATING.search(tr[idx - 1]) or (idx >= 2 and MUTATING.search(tr[idx - 2]))) else 1
+        return (mut, hashlib.sha1(("%s|%s|%s" % (ctx.seed, uname, j)).encode()).hexdigest())
+    jobs.sort(key=prio)
+    budget = float(os.environ.get("C04_BUDGET_S", "1000" if th else "210"))
+    deadline = t_enum + budget
+    skipped = 0
     with cf.ThreadPoolExecutor(max_workers=vlib.NPROC) as ex:
         futs = [(j, ex.submit(run_case, tdir, j[0], j[1], j[2], j[3], j[4], user=user)) for j in jobs]
         for j, f in futs:
             nme, k, ka, ck, cka = j
+            if time.time() > deadline and f.cancel():
+                skipped += 1
+                continue
             res = f.result()
             stats["ncases"] += 1
             inf = info[nme]
@@ -685,12 +703,23 @@ def enumerate_as(ctx, tdir, scs, user, th, model_steps, classes, stats):
                                       "trace_prefix": tr[max(0, idx - 25):idx], "survivor_after": res["phases"].get("after"),
                                       "survivor_probe": res["phases"].get("probe"), "how_to_rerun": replay_cmd(res)}
     stats["nfail"] += nfail
-    ctx.log("user %s: enumeration of %d cases, %.1fs, %d failing cases" % (uname, len(jobs), time.time() - t_enum, nfail))
+    stats["selected"] += len(jobs)
+    stats["skipped"] += skipped
+    if skipped:
+        ctx.notes.append("user %s: wall-clock budget of %.0f s for the enumeration exhausted (machine load): %d of %d selected crash cases were not run" % (uname, budget, skipped, len(jobs)))
+    ctx.log("user %s: enumeration of %d cases (%d skipped by the time budget), %.1fs, %d failing cases" % (uname, len(jobs) - skipped, skipped, time.time() - t_enum, nfail))
+
+
+def _on_term(signum, frame):
+    cleanup_own()
+    os._exit(143)
 
 
 def run(ctx):
     import atexit
     atexit.register(cleanup_own)
+    signal.signal(signal.SIGTERM, _on_term)
+    signal.signal(signal.SIGINT, _on_term)
     sweep_stale()
     proof_ok = vlib.proof_stage(ctx) if os.path.exists(os.path.join(VERIF, "coq", "props", "C04.v")) else None
     gatectl.build()
@@ -728,7 +757,7 @@ def run(ctx):
     users = default_users(th)
     model_steps = model_step_lists(ctx)
     classes = {}
-    stats = {"ncases": 0, "nfail": 0, "prefix_mismatch": 0, "roles": set(), "per_scn": {}, "tie_bad": [], "tie_checked": 0, "tie_user": users[0], "seen_roles": set(), "seen_croles": set()}
+    stats = {"ncases": 0, "nfail": 0, "prefix_mismatch": 0, "roles": set(), "per_scn": {}, "tie_bad": [], "tie_checked": 0, "tie_user": users[0], "seen_roles": set(), "seen_croles": set(), "selected": 0, "skipped": 0}
     for u in users:
         stats["seen_roles"], stats["seen_croles"] = set(), set()
         enumerate_as(ctx, tdir, scs, u, th, model_steps, classes, stats)
@@ -773,6 +802,7 @@ def run(ctx):
     ctx.cov.update({
         "scenarios": stats["per_scn"],
         "users": [u or "self" for u in users],
+        "crash_cases_selected": stats["selected"], "crash_cases_skipped_by_time_budget": stats["skipped"],
         "crash_cases_run": stats["ncases"], "failing_cases": stats["nfail"], "failing_classes": len(classes),
         "distinct_call_roles_at_crash_point": len(stats["roles"]),
         "kill_prefix_trace_mismatches": stats["prefix_mismatch"],
